@@ -511,3 +511,85 @@ k_c12_words!(k_c12_words_k2_u8_u16_p4, u8, u16, u8, 4, 2);
 k_c12_words!(k_c12_words_k2_u8_u16_p8, u8, u16, u8, 8, 2);
 k_c12_words!(k_c12_words_k3_u8_u16_p4, u8, u16, u8, 4, 3);
 k_c12_words!(k_c12_words_k1_u16_u32_p12, u16, u32, u16, 12, 1);
+
+/// C06 / C02 `c06_range_ref_inverted`: one symbol encoded from ANY raw state in an INVERTED situation
+/// (n held-back words, first one `w`) with an empty sink, then sealed: the emitted words equal the digits
+/// chosen by the sealing rule applied to the exact wide integer whose top digits are the held-back words
+/// (`w`, then n-1 all-ones words -- the digits of `lower` as long as no carry arrives). This is the inductive
+/// cut for carry propagation: held-back runs of any length reduce to it.
+macro_rules! k_c06_range_inverted {
+    ($name:ident, $W:ty, $S:ty, $Pr:ty, $P:expr, $NMAX:expr) => {
+        #[no_mangle]
+        pub extern "C" fn $name(lower: $S, range0: $S, n: u32, w: $W, c1: $Pr, c2: $Pr, sym: u8) -> u32 {
+            const WB: u32 = <$W>::BITS;
+            const SB: u32 = <$S>::BITS;
+            const NQ: usize = 10;
+            let st = match RangeCoderState::<$W, $S>::new(lower, range0) {
+                Ok(s) => s,
+                Err(_) => return 1,
+            };
+            if lower.wrapping_add(range0) > lower || n == 0 || n > $NMAX || w == <$W>::MAX {
+                return 1;
+            }
+            let m = Cuts::<$Pr, $P> { c1, c2 };
+            if !m.valid() || sym > 2 {
+                return 1;
+            }
+            let q = ArrQueue::<$W, NQ> { words: [0; NQ], len: 0, rpos: 0 };
+            let sit = EncoderSituation::Inverted(core::num::NonZeroUsize::new(n as usize).unwrap(), w);
+            let mut enc = RangeEncoder::<$W, $S, _>::from_raw_parts(q, st, sit);
+            if enc.encode_symbol(sym, m).is_err() {
+                return 2;
+            }
+            let got = match enc.into_compressed() {
+                Ok(q) => q,
+                Err(_) => return 3,
+            };
+            // reference
+            let held: u128 = ((w as u128) << (WB * (n - 1))) | ((1u128 << (WB * (n - 1))) - 1);
+            let mut low: u128 = (held << SB) | (lower as u128);
+            let (cum, p) = m.cp(sym);
+            let scale: $S = range0 >> $P;
+            low += (scale * (cum as $S)) as u128;
+            let mut range: $S = scale * (p as $S);
+            let mut nshift: u32 = 0;
+            if range < ((1 as $S) << (SB - WB)) {
+                range = range << WB;
+                low = low << WB;
+                nshift = 1;
+            }
+            let point: u128 = low + ((1u128 << (SB - WB)) - 1);
+            let z: u128 = point >> (SB - WB);
+            let ndig = n + nshift + 1;
+            let mut want = [0 as $W; NQ];
+            let mut k = 0usize;
+            let mut d = 0;
+            while d < ndig {
+                want[k] = (z >> (WB * (ndig - 1 - d))) as $W;
+                k += 1;
+                d += 1;
+            }
+            let upper: u128 = low + range as u128;
+            if (upper >> (SB - WB)) as $W == z as $W {
+                want[k] = 0;
+                k += 1;
+            }
+            if got.len != k {
+                return 4;
+            }
+            let mut i = 0;
+            while i < k {
+                if got.words[i] != want[i] {
+                    return 5;
+                }
+                i += 1;
+            }
+            0
+        }
+    };
+}
+k_c06_range_inverted!(k_c06_range_inv_u8_u16_p4, u8, u16, u8, 4, 3);
+k_c06_range_inverted!(k_c06_range_inv_u8_u16_p8, u8, u16, u8, 8, 3);
+k_c06_range_inverted!(k_c06_range_inv_u16_u32_p12, u16, u32, u16, 12, 2);
+k_c06_range_inverted!(k_c06_range_inv_u16_u32_p16, u16, u32, u16, 16, 2);
+k_c06_range_inverted!(k_c06_range_inv_u32_u64_p24, u32, u64, u32, 24, 1);
